@@ -545,15 +545,42 @@ class C10(Prop):
 
     def observe_extent(self, laser, cfg, rows, cols, ctx):
         """pixel sizes, Laser.extent, data_extent and their array round trip of the laser AS IT IS NOW against the
-        driver's model/spec for `cfg`, `rows`, `cols` -> (impl, model, spec, spec_ok, model_ok)"""
+        driver's model/spec for `cfg`, `rows`, `cols` -> (impl, model, spec, spec_ok, model_ok).
+        The array form is compared as NumPy built it (dtype field names in order, shape, values), and `from_array` of
+        Config and SpotConfig is run on the real arrays of all three configuration classes."""
+        from pewlib.config import Config, SpotConfig
+        from pewlib.srr.config import SRRConfig
+
         conf = laser.config
-        rt = type(conf).from_array(conf.to_array())
+        own = conf.to_array()
+        rt = type(conf).from_array(own)
+        if cfg["kind"] == "raster":
+            others = [SpotConfig(spotsize=cfg["spotsize"], spotsize_y=cfg["speed"]).to_array(),
+                      SRRConfig(spotsize=cfg["spotsize"], speed=cfg["speed"], scantime=cfg["scantime"]).to_array()]
+        else:
+            others = [Config(spotsize=cfg["sx"], speed=cfg["sy"], scantime=1.0).to_array(),
+                      SRRConfig(spotsize=cfg["sx"], speed=cfg["sy"], scantime=0.25).to_array()]
+        encs = [enc_rec(a) for a in [own] + others]
+        if any(e is None for e in encs):
+            raise core.InternalError("a configuration array is not a 0-d / 1-d structured array of floats and (k, 2) integer tables")
+
+        def from_arr(cls, a):
+            try:
+                c = cls.from_array(a)
+            except Exception as e:
+                return {"raises": type(e).__name__}
+            if isinstance(c, SpotConfig):
+                return {"kind": "spot", "values": [rat(float(c.spotsize)), rat(float(c.spotsize_y))]}
+            return {"kind": "raster", "values": [rat(float(c.spotsize)), rat(float(c.speed)), rat(float(c.scantime))]}
+
         impl = {"pw": float(conf.get_pixel_width()), "ph": float(conf.get_pixel_height()),
                 "extent": [float(v) for v in laser.extent],
                 "data_extent": [float(v) for v in conf.data_extent((rows, cols))],
+                "array": encs[0],
                 "roundtrip": {"pw": float(rt.get_pixel_width()), "ph": float(rt.get_pixel_height()),
-                              "extent": [float(v) for v in rt.data_extent((rows, cols))]}}
-        rep = ctx.driver.call("c10.extent", cfg=cfg_json(cfg), rows=rows, cols=cols)
+                              "extent": [float(v) for v in rt.data_extent((rows, cols))]},
+                "from_arrays": [{"raster": from_arr(Config, a), "spot": from_arr(SpotConfig, a)} for a in [own] + others]}
+        rep = ctx.driver.call("c10.extent", cfg=cfg_json(cfg), rows=rows, cols=cols, arrays=encs)
         m, s = rep["model"], rep["spec"]
 
         def agrees(pw, ph, ext):
@@ -562,9 +589,18 @@ class C10(Prop):
                     and fclose(impl["roundtrip"]["pw"], unrat(pw)) and fclose(impl["roundtrip"]["ph"], unrat(ph))
                     and ext_close(impl["roundtrip"]["extent"], ext))
 
+        def same_outcome(o, j):
+            if j.get("unmodelled"):
+                return True
+            if "raises" in o or "raises" in j:
+                return o.get("raises") == j.get("raises")
+            return o["kind"] == j["kind"] and o["values"] == j["values"]
+
         spec_ok = agrees(s["pw"], s["ph"], s["extent"])
-        model_ok = (agrees(m["pw"], m["ph"], m["extent"]) and m["roundtrip"] is not None
-                    and ext_close(impl["roundtrip"]["extent"], m["roundtrip"]["extent"]) and m["data_extent"] == m["extent"])
+        model_ok = (agrees(m["pw"], m["ph"], m["extent"]) and "extent" in m["roundtrip"]
+                    and ext_close(impl["roundtrip"]["extent"], m["roundtrip"]["extent"]) and m["data_extent"] == m["extent"]
+                    and canon_eq(impl["array"], m["array"])
+                    and all(same_outcome(o[k], j[k]) for o, j in zip(impl["from_arrays"], m["from_arrays"]) for k in ("raster", "spot")))
         return impl, m, s, spec_ok, model_ok
 
     def eval_extent(self, case, ctx):
@@ -656,16 +692,19 @@ class C10(Prop):
         return layers
 
     def observe_srr(self, laser, cur, shapes, ctx, feats):
-        """extent / reconstructed pixel size of the SRR laser AS IT IS NOW against the shape of the array it reconstructs
-        now; `cur` = the abstract configuration it holds now -> (impl, model, spec, reconstruction raised)"""
+        """extent / reconstructed pixel size of the SRR laser AS IT IS NOW against the shape of the reconstruction;
+        `cur` = the INPUTS of the configuration it holds now (constructor arguments + "ops") -> (impl, model, spec, raised).
+        The demanded shape is Lean's `reconRows/reconCols` (C09's specification of the reconstruction) whenever the model's
+        validity check accepts the configuration; the shape pewlib reconstructs is an observation that must equal it too."""
         ext = [float(v) for v in laser.extent]
         px, py = float(laser.config.get_pixel_width()), float(laser.config.get_pixel_height())
-        mag = float_mag(cur)
-        if mag != float(cur["mag"]):
-            raise core.InternalError("generator: magnification is not the intended float integer")
-        rep = ctx.driver.call("c10.srr", cfg=srr_cfg_json(cur), mag=rat(mag), shapes=shapes, observed=[rat(v) for v in ext + [px, py]])
+        rep = ctx.driver.call("c10.srr", cfg=srr_cfg_json(cur), shapes=shapes, observed=[rat(v) for v in ext + [px, py]])
+        mj = rep["config"]
+        if not mj["integer_mag"] or mj["mag"] != cur["mag"]:
+            raise core.InternalError("generator: the model's float64 magnification is not the intended integer")
         feats |= {"srr", f"mag{cur['mag']}", f"layers{len(shapes)}", "warmup>0" if rep["warmup"] > 0 else "warmup=0",
-                  "non-square" if shapes[0][0] != shapes[1][0] else "square", "offset>0" if max(rep["offs"]) > 0 else "offset=0",
+                  "non-square" if shapes[0][0] != shapes[1][0] else "square",
+                  "offset>0" if (rep["offs"] and max(rep["offs"]) > 0) else "offset=0",
                   f"spp{'>1' if rep['spp'] > 1 else '=1'}"}
         try:
             recon = laser.get()
@@ -677,13 +716,24 @@ class C10(Prop):
         else:
             rx, ry = (unrat(v) for v in rep["observed_ratio"])
             impl = {"cols_from_extent": near_int(rx), "rows_from_extent": near_int(ry)}
-        spec = {"cols_from_extent": rshape[1], "rows_from_extent": rshape[0]}
-        if rep["spec_shape"] != rshape:
-            feats.add("reconstruction-shape-differs-from-C09-model")
-            model = spec  # nothing further to compare: C10 relates the extent to the array that was reconstructed
+        impl["reconstructed_shape"] = rshape
+        if rep["valid"] is True and rep["spec_shape"] is not None:
+            want = rep["spec_shape"]
+            feats.add("srr: shape demanded from the C09 specification")
+        else:  # a configuration the model's validity check rejects but pewlib reconstructs: only its own shape can be related
+            want = rshape
+            feats.add("srr: reconstructed although the model rejects the configuration")
+        spec = {"cols_from_extent": want[1], "rows_from_extent": want[0], "reconstructed_shape": want}
+        if rep["model_ratio"] is None or rep["model_shape"] is None:
+            model = {"cols_from_extent": None, "rows_from_extent": None, "reconstructed_shape": rep["model_shape"]}
         else:
             mr = [unrat(v) for v in rep["model_ratio"]]
-            model = {"cols_from_extent": near_int(mr[0]), "rows_from_extent": near_int(mr[1])}
+            model = {"cols_from_extent": near_int(mr[0]), "rows_from_extent": near_int(mr[1]), "reconstructed_shape": rep["model_shape"]}
+        # the extent and pixel size themselves, against the model (1e-12 relative)
+        impl["extent_px_agree_with_model"] = bool(ext_close(ext, rep["model_extent"]) and fclose(px, unrat(rep["model_px"]))
+                                                  and fclose(py, unrat(rep["model_py"]))) if rep["model_extent"] is not None else None
+        model["extent_px_agree_with_model"] = True if rep["model_extent"] is not None else None
+        spec["extent_px_agree_with_model"] = impl["extent_px_agree_with_model"]
         return impl, model, spec, False
 
     def eval_srr(self, case, ctx):
@@ -808,6 +858,7 @@ class C10(Prop):
 
         shapes = stack_shapes(case)
         cur = {k: case[k] for k in ("spotsize", "speed", "scantime", "warmup", "pairs", "mag")}
+        cur["ops"] = []  # what is DONE to the configuration object after its construction, for the driver's setters
         laser = SRRLaser(self.srr_layers(shapes), config=make_srr_cfg(cur))
         impl, model, spec = [], [], []
         feats = {"srr-history"}
@@ -820,24 +871,32 @@ class C10(Prop):
                 conf = laser.config
                 if "pairs" in ch:
                     conf.subpixel_offsets = [tuple(p) for p in ch["pairs"]]
+                    cur["ops"].append(cfg_op("offsets", pairs=ch["pairs"]))
                 if "warmup" in ch:
                     conf.warmup = ch["warmup"]
+                    cur["ops"].append(cfg_op("warmup", seconds=ch["warmup"]))
                 tag = "in-place edit of " + " and ".join(k for k in ("pairs", "warmup") if k in ch)
             elif ch["op"] == "equal":
                 w = len(ch["pairs"])
                 if ch["pairs"] != [[i, w] for i in range(w)]:
                     raise core.InternalError("equal offsets: pairs must be [[0, w], .., [w-1, w]]")
                 laser.config.set_equal_subpixel_offsets(w)
+                cur["ops"].append(cfg_op("equal", width=w))
                 tag = "in-place set_equal_subpixel_offsets"
             elif ch["op"] == "triple":
                 conf = laser.config
                 conf.spotsize, conf.speed, conf.scantime = ch["spotsize"], ch["speed"], ch["scantime"]
                 conf.warmup = ch["warmup"]
+                cur["ops"] += [cfg_op("params", spotsize=ch["spotsize"], speed=ch["speed"], scantime=ch["scantime"]),
+                               cfg_op("warmup", seconds=ch["warmup"])]
                 tag = "in-place edit of spot size, speed, scan time"
                 if ch["mag"] != cur["mag"]:
                     feats.add("srr-history: magnification changed")
             elif ch["op"] == "replace":
-                laser.config = make_srr_cfg({**cur, **{k: v for k, v in ch.items() if k != "op"}})
+                new = {**cur, **{k: v for k, v in ch.items() if k != "op"}}
+                laser.config = make_srr_cfg(new)
+                cur["ops"].append(cfg_op("new", spotsize=new["spotsize"], speed=new["speed"], scantime=new["scantime"],
+                                         warmup=new["warmup"], pairs=new["pairs"]))
                 tag = "config replaced"
             else:
                 raise core.InternalError(f"unknown change {ch}")
